@@ -38,6 +38,7 @@ pub struct W {
     pub nolimit_pct: usize,
     pub ops_lo: usize,
     pub ops_hi: usize,
+    pub query_pct: usize,
 }
 
 fn base() -> W {
@@ -72,6 +73,7 @@ fn base() -> W {
         nolimit_pct: 35,
         ops_lo: 4,
         ops_hi: 30,
+        query_pct: 6,
     }
 }
 
@@ -86,6 +88,10 @@ pub fn weights(profile: &str) -> W {
             w.alt = 8;
             w.tiny_pct = 60;
             w.rep = 5;
+            w.query_pct = 35;
+            w.save = 6;
+            w.margins = 8;
+            w.modes = 8;
         }
         "C02" => {
             w.resize_pct = 25;
@@ -522,11 +528,25 @@ fn gen_garbage(rng: &mut Rng) -> String {
         .collect()
 }
 
-fn gen_huge(rng: &mut Rng) -> String {
+/// REP is the one command whose work is proportional to its count; on very narrow screens 65535
+/// repetitions mean ~65535 scrolls, which the (list-based) model replays in quadratic time, so such
+/// counts are kept for screens of >= 5 columns (and a small share of the narrow ones).
+fn rep_count(rng: &mut Rng, cols: usize, s: String) -> String {
+    let big = s.len() >= 5;
+    if big && cols < 5 && !rng.chance(4) {
+        rng.pick(&["1000", "300", "2000"]).to_string()
+    } else {
+        s
+    }
+}
+
+fn gen_huge(rng: &mut Rng, cols: usize) -> String {
     match rng.below(6) {
         0 => {
             let f = *rng.pick(&['b', '@', 'L', 'M', 'S', 'T', 'P', 'X', 'A', 'B', 'C', 'D', 'I', 'Z', 'd', 'G']);
-            format!("{}{}{}", csi(rng), *rng.pick(&["65535", "65536", "65534", "99999999999", "4294967296", "18446744073709551616"]), f)
+            let n = rng.pick(&["65535", "65536", "65534", "99999999999", "4294967296", "18446744073709551616"]).to_string();
+            let n = if f == 'b' { rep_count(rng, cols, n) } else { n };
+            format!("{}{}{}", csi(rng), n, f)
         }
         1 => {
             // > 32 parameters
@@ -542,15 +562,20 @@ fn gen_huge(rng: &mut Rng) -> String {
         }
         3 => format!("{}?{}h", csi(rng), (0..rng.range(30, 36)).map(|_| "1049").collect::<Vec<_>>().join(";")),
         4 => format!("{}{};{}r", csi(rng), *rng.pick(&["65535", "0", "65536"]), *rng.pick(&["65535", "0", "1"])),
-        _ => format!("x{}{}b", csi(rng), *rng.pick(&["65535", "300", "1000"])),
+        _ => {
+            let n = rng.pick(&["65535", "300", "1000"]).to_string();
+            format!("x{}{}b", csi(rng), rep_count(rng, cols, n))
+        }
     }
 }
 
 fn gen_rep(rng: &mut Rng, cols: usize) -> String {
+    let n = gen_num(rng, cols);
+    let n = rep_count(rng, cols, n);
     if rng.chance(50) {
-        format!("{}{}{}b", gen_char(rng), csi(rng), gen_num(rng, cols))
+        format!("{}{}{}b", gen_char(rng), csi(rng), n)
     } else {
-        format!("{}{}b", csi(rng), gen_num(rng, cols))
+        format!("{}{}b", csi(rng), n)
     }
 }
 
@@ -594,7 +619,7 @@ pub fn gen_fragment(rng: &mut Rng, w: &W, cols: usize, rows: usize) -> String {
         18 => "\u{1b}c".into(),
         19 => "\u{1b}[!p".into(),
         20 => gen_rep(rng, cols),
-        _ => gen_huge(rng),
+        _ => gen_huge(rng, cols),
     }
 }
 
@@ -664,6 +689,15 @@ fn case_generic(rng: &mut Rng, w: &W, out: &mut impl Write) {
                 "S"
             };
             writeln!(out, "{} 0 {}", kind, hex_encode(&s)).unwrap();
+        }
+        // queries: dump / text / unwrapped lines / chunks (C01: every public query returns normally)
+        if rng.chance(w.query_pct) {
+            match rng.below(4) {
+                0 => writeln!(out, "DUMP 0").unwrap(),
+                1 => writeln!(out, "TEXT 0").unwrap(),
+                2 => writeln!(out, "UNWRAP 0").unwrap(),
+                _ => writeln!(out, "CHUNKS 0 {}", rng.below(rows)).unwrap(),
+            }
         }
     }
 }
